@@ -12,6 +12,8 @@ pub mod hs {
         Time(std::time::SystemTime),
         Sep,
         Rsp(RspFile),
+        /// anything else a changed hash.rs might feed (ids, integers): never part of the specified manifest
+        Num(int),
     }
     pub uninterp spec fn hfed(h: std::collections::hash_map::DefaultHasher) -> Seq<Fed>;
     pub uninterp spec fn hfinish(s: Seq<Fed>) -> u64;
@@ -54,6 +56,34 @@ pub mod hs {
         + files_fed(files, fs, b.outs.ids@) + seq![Fed::Sep]
     }
 
+    /// the manifest written in the order of the calls (left-nested), starting from what was fed before
+    pub open spec fn manifest_from(m0: Seq<Fed>, files: GraphFiles, fs: FileState, b: Build) -> Seq<Fed> {
+        let m1 = m0 + files_fed(files, fs, gs::dirtying_ins(b)) + seq![Fed::Sep];
+        let m2 = m1 + files_fed(files, fs, b.discovered_ins@) + seq![Fed::Sep];
+        let m3 = m2.push(Fed::Str(cmd_of(b))).push(Fed::Sep);
+        let m4 = match b.rspfile { Some(r) => m3.push(Fed::Rsp(r)), None => m3 };
+        m4 + files_fed(files, fs, b.outs.ids@) + seq![Fed::Sep]
+    }
+    pub proof fn lemma_manifest_from(m0: Seq<Fed>, files: GraphFiles, fs: FileState, b: Build)
+        ensures manifest_from(m0, files, fs, b) =~= m0 + manifest(files, fs, b)
+    {
+        let a = files_fed(files, fs, gs::dirtying_ins(b)) + seq![Fed::Sep];
+        let bb = files_fed(files, fs, b.discovered_ins@) + seq![Fed::Sep];
+        let c = seq![Fed::Str(cmd_of(b)), Fed::Sep];
+        let d = rsp_fed(b);
+        let e = files_fed(files, fs, b.outs.ids@) + seq![Fed::Sep];
+        let m1 = m0 + files_fed(files, fs, gs::dirtying_ins(b)) + seq![Fed::Sep];
+        let m2 = m1 + files_fed(files, fs, b.discovered_ins@) + seq![Fed::Sep];
+        let m3 = m2.push(Fed::Str(cmd_of(b))).push(Fed::Sep);
+        let m4 = match b.rspfile { Some(r) => m3.push(Fed::Rsp(r)), None => m3 };
+        assert(m1 =~= m0 + a);
+        assert(m2 =~= m0 + a + bb);
+        assert(m3 =~= m0 + a + bb + c);
+        assert(m4 =~= m0 + a + bb + c + d);
+        assert(manifest_from(m0, files, fs, b) =~= m0 + a + bb + c + d + e);
+        assert(manifest(files, fs, b) =~= a + bb + c + d + e);
+        assert(m0 + a + bb + c + d + e =~= m0 + (a + bb + c + d + e));
+    }
     pub open spec fn names_of(o: Option<Vec<String>>) -> Seq<String> { match o { Some(v) => v@, None => Seq::<String>::empty() } }
     // --- C09: the discovered list a finished command leaves behind.  It is a function of the report alone
     //     (ids, in report order) and of the declared dirtying inputs di -- the previous list does not occur.
